@@ -42,6 +42,19 @@ where
     }
 }
 
+impl<T, V, M> EhlersFisherTransform<T, V, M>
+where
+    T: Float,
+{
+    /// Append an output, keeping at most one window of past outputs.
+    fn push_out(&mut self, out: T) {
+        if self.q_out.len() >= self.window_len.max(1) {
+            self.q_out.pop_front();
+        }
+        self.q_out.push_back(out);
+    }
+}
+
 impl<T, V, M> View<T> for EhlersFisherTransform<T, V, M>
 where
     V: View<T>,
@@ -91,7 +104,7 @@ where
         }
 
         if self.high == self.low {
-            self.q_out.push_back(T::zero());
+            self.push_out(T::zero());
             return;
         }
         let half = T::from(0.5).expect("can convert");
@@ -109,13 +122,13 @@ where
 
         if self.q_out.is_empty() {
             // do not insert values when there are not enough values yet
-            self.q_out.push_back(T::zero());
+            self.push_out(T::zero());
             return;
         }
         let fish = half * ((T::one() + smoothed) / (T::one() - smoothed)).ln()
             + half * *self.q_out.back().unwrap();
         debug_assert!(fish.is_finite(), "value must be finite");
-        self.q_out.push_back(fish);
+        self.push_out(fish);
     }
 
     #[inline(always)]
